@@ -67,7 +67,7 @@ func (ck *checker) familyPlants(maxN int) {
 				}
 				// duplicate well-known-type path: module w provides wktProvPath and is imported through it alone
 				// (family W), module `into` holds a copy of that file
-				for w := 0; w < n; w++ {
+				for w := 0; w < n && n <= 3; w++ {
 					if inDegree(g, w) == 0 {
 						continue
 					}
@@ -76,7 +76,7 @@ func (ck *checker) familyPlants(maxN int) {
 							continue
 						}
 						vectors := [][]Kind{uniform(KNamed), with(KRemote, into, KNamed), with(KRemote, w, KNamed), uniform(KLocal)}
-						if n == 4 || (n == 3 && r.Quick()) {
+						if n == 3 && r.Quick() {
 							vectors = vectors[:1]
 						}
 						for _, ks := range vectors {
